@@ -192,4 +192,26 @@ def layoutPremisesB' (cfg : Config) (alnum : Bytes → Bool) (s1 s2 : Bytes) : B
           allWritten pw.2.1 (writtenBefore pw.2.1 pw.2.2) pw.2.2.length sols && freeBeforeBrokenB pw.2.1 pw.2.2 ftz)
   | _, _ => false
 
+/-! ### the C08 premises without the checked "at most one space" at non-free positions (proved: Proofs/CanonPremise.lean) -/
+
+/-- `preStageOkB` asking for "at most one space before" only at the free positions (`freeAtB`); at every other
+    position it is a theorem about `TokenSpacing` (Proofs/CanonPremise.lean) -/
+def preStageOkB' (lines : List Line) (ft : FT) : Bool :=
+  ft.zipIdx.all fun p => p.1.fmt.ignored ||
+    ((!(freeAtB ft p.2) || decide (p.1.fmt.sp ≤ 1)) && (!(writtenBefore lines ft p.2) || canonWB p.1.fmt))
+
+/-- `canonPremisesB` with `preStageOkB'` in place of `preStageOkB` -/
+def canonPremisesB' (cfg : Config) (alnum : Bytes → Bool) (s : Bytes) : Bool :=
+  match lex s with
+  | none => false
+  | some raw =>
+    match parseAndConsolidate raw with
+    | none => false
+    | some po =>
+      let pw := preWrap (preO alnum po) raw
+      preStageOkB' pw.2.1 pw.2.2 &&
+      (match wrapStageFull cfg pw.2.1 pw.2.2 with
+        | none => false
+        | some (_, sols) => allWritten pw.2.1 (writtenBefore pw.2.1 pw.2.2) pw.2.2.length sols)
+
 end Pasfmt
